@@ -265,7 +265,12 @@ fn execute(req: &Req, plan: &WritePlan) -> Result<RunResult, String> {
             })
         }
         Req::Ops { ops, batch } => {
-            connect_and_run(&mut w, ConnectSpec::default(), &default_connack(), &WritePlan::default())?;
+            // what the server announced about itself (Session Present, capabilities it lacks such
+            // as Retain Available 0 / Maximum QoS, property order, an AUTH exchange, an earlier
+            // connection on the same Context) never changes what must be written for a request
+            let h = crate::driver::case_hash(&(ops, batch));
+            let variant = if h % 3 == 0 { 0 } else { ((h >> 8) & 0x7f) as u8 };
+            connect_and_run_v(&mut w, ConnectSpec::default(), &default_connack(), &WritePlan::default(), variant)?;
             let off = w.writer.len();
             plan.install(&w);
             w.clone_handle(0);
